@@ -168,6 +168,9 @@ def directed():
         # responses queued while requests are in flight, fetched with sendv_recv
         P.append([c, "Cb 0 SResp 16 ; SResp 17", "Cb 0 SRespv 4096", "CSend 16", "CSend 16", "SPoll", "CSendvRecv 16", "CSendvRecv 16", "CSendvRecv 16",
                   "CSendvRecv 16", "SPoll", "SPoll"])
+        # the combined call waits for a slow server (2.3 s of real time: longer than the library's internal 2 s wait slice):
+        # the request is queued once, whatever the wait does
+        P.append([c, "CSendvRecv 24 2300", "SPoll", "CRecv", "CSendvRecv 16", "SPoll", "CRecv", "CRecv"])
         # response channel full
         P.append([c, "Rep 5 SResp M", "Rep 4 SResp 4096", "Rep 3 CRecv", "Rep 3 SRespv M-1", "Rep 12 CRecv"])
         P.append([c, "Rep 700 SResp 16", "Rep 300 CRecv", "Rep 300 SRespv 17", "Rep 800 CRecv"])
